@@ -37,7 +37,8 @@ static void gen_cfg(rng_t *r, cfg_t *c)
 	case 3: c->codec = 2; c->m = 4; c->k = 1 + rng_below(r, 8); c->r = 1 + rng_below(r, 15 - c->k > 6 ? 6 : 15 - c->k); break;
 	case 4: { static const uint32_t kr[][2] = { {4,4},{6,5},{9,6},{2,3},{12,7},{8,6} }; unsigned i = rng_below(r, 6); c->codec = 5; c->k = kr[i][0]; c->r = kr[i][1]; break; }
 	default: c->codec = 3; c->k = 1 + rng_below(r, 20); c->r = 3 + rng_below(r, 14); c->N1 = 3 + rng_below(r, 4); if (c->N1 > c->r) c->N1 = c->r;
-		 c->seed = rng_below(r, 4) == 0 ? 1 : 1 + rng_below(r, 2147483646u); break;
+		 { static const uint32_t bs[] = { 1, 2, 16807, 2147483645u, 2147483646u };      /* both ends of the legal seed range */
+		   c->seed = rng_below(r, 3) == 0 ? bs[rng_below(r, 5)] : 1 + rng_below(r, 2147483646u); } break;
 	}
 }
 static const uint32_t Ls_twin[] = { 1, 4, 8, 13, 32 };
@@ -217,7 +218,7 @@ static void one_case(uint64_t caseseed, int merge_style, long unit, long idx)
 	write_blocks(path, S, m);
 	/* (a) each script alone in a fresh process — first, so that a library that dies even alone is told apart from interference */
 	char cmd[900], exe[400]; ssize_t n = readlink("/proc/self/exe", exe, sizeof exe - 1); if (n <= 0) rep_fatal("C12: readlink"); exe[n] = 0;
-	snprintf(cmd, sizeof cmd, "OFH_CUR= OFH_CHILD='%llu %s' ASAN_OPTIONS=detect_leaks=0 '%s' C12child 2>/dev/null", (unsigned long long)caseseed, path, exe);
+	snprintf(cmd, sizeof cmd, "OFH_CUR= OFH_CHILD='%llu %s' ASAN_OPTIONS=detect_leaks=0 timeout -s KILL 120 '%s' C12child 2>/dev/null", (unsigned long long)caseseed, path, exe);
 	FILE *f = popen(cmd, "r"); if (!f) rep_fatal("C12: popen");
 	memset(R, 0, sizeof R);
 	char line[400]; int died = 0;
